@@ -8,7 +8,7 @@ import numpy as np
 
 import common
 
-LEVEL = 'other'
+LEVEL = 'proof'
 
 
 # ------------------------------------------------------------------------------------------------
